@@ -721,21 +721,24 @@ V('reord-new-raw-entry', 'C09', 'breaking',
         return self._wrap(r)""")],
   'R-REORD/raw-entry/dd.autoref.BDD.cube', 'autoref.cube rebuilt on raw calls')
 V('reord-no-rearm', 'C09', 'breaking',
-  [(B, """        # enable reordering requests
-        bdd._last_len = GROWTH_FACTOR * len_after
-        return r""", """        return r""")],
+  [(B, """        finally:
+            # enable reordering requests
+            bdd._last_len = GROWTH_FACTOR * len_after
+        return r""", """        finally:
+            pass
+        return r""")],
   'R-REORD/protocol', 'reordering stays off after the first request')
 V('reord-no-disable', 'C09', 'breaking',
   [(B, """        bdd._last_len = None
         reorder(bdd)""", """        reorder(bdd)""")],
   'R-REORD/protocol', 'sifting with requests enabled')
 V('reord-retry-outside-context', 'C09', 'breaking',
-  [(B, """        with _ReorderingContext(bdd):
-            r = func(
+  [(B, """            with _ReorderingContext(bdd):
+                r = func(
+                    bdd,
+                    *args, **kwargs)""", """            r = func(
                 bdd,
-                *args, **kwargs)""", """        r = func(
-            bdd,
-            *args, **kwargs)""")],
+                *args, **kwargs)""")],
   'R-REORD/protocol', 'retry outside the nesting context')
 V('reord-exit-no-restore', ['C09', 'C17'], 'breaking',
   [(B, """        self.bdd._reordering_context = self.nested
@@ -1272,11 +1275,11 @@ V('domain-terminal-root', 'C12', 'breaking',
   [(B, "        umap = {1: 1}\n        for u in succ:", "        umap = dict()\n        for u in succ:")],
   'R-DOMAIN/terminal-unmapped', 'F10 reintroduced')
 V('reord-retry-kwargs', 'C09', 'breaking',
-  [(B, """            r = func(
-                bdd,
-                *args, **kwargs)""", """            r = func(
-                bdd,
-                *args)""")],
+  [(B, """                r = func(
+                    bdd,
+                    *args, **kwargs)""", """                r = func(
+                    bdd,
+                    *args)""")],
   'R-REORD/protocol', 'keyword arguments lost on the retry')
 V('reord-stale-levels', ['C03', 'C09'], 'breaking',
   [(B, """        elif op in (r'\\E', 'exists'):
@@ -1481,3 +1484,57 @@ V('levelset-assign-crossed', 'C07', 'breaking',
         all_levels[y] = newx""", """        all_levels[x] = newx
         all_levels[y] = newy""")],
   'R-LEVELSET/wrong-level-set', 'sets stored under the other level')
+
+
+# ------------------------------------------------- R-REORD restore-on-error
+V('reord-rearm-not-in-finally', ['C09', 'C17'], 'breaking',
+  [(B, """        try:
+            with _ReorderingContext(bdd):
+                r = func(
+                    bdd,
+                    *args, **kwargs)
+        finally:
+            # enable reordering requests
+            bdd._last_len = GROWTH_FACTOR * len_after
+        return r""", """        with _ReorderingContext(bdd):
+            r = func(
+                bdd,
+                *args, **kwargs)
+        # enable reordering requests
+        bdd._last_len = GROWTH_FACTOR * len_after
+        return r""")],
+  'R-REORD/restore-on-error/dd.bdd._try_to_reorder._wrapper',
+  'the defect F12 re-introduced: a rejected retry leaves reordering off')
+V('reord-loadjson-restore-dict', ['C09', 'C17'], 'breaking',
+  [('dd/_copy.py', """                reordering=old_reordering['reordering'])""",
+    """                reordering=old_reordering)""")],
+  'R-REORD/restore-value/dd._copy._load_json',
+  'the defect F14 re-introduced: the record returned by configure() is '
+  'passed back as the flag')
+V('reord-module-reorder-save-restore', 'C17', 'breaking',
+  [(B, """    if order is None:
+        _apply_sifting(bdd)
+    else:
+        _sort_to_order(bdd, order)""", """    old = bdd._last_len
+    bdd._last_len = None
+    if order is None:
+        _apply_sifting(bdd)
+    else:
+        _sort_to_order(bdd, order)
+    bdd._last_len = old""")],
+  'R-REORD/restore-on-error/dd.bdd.reorder',
+  'save/disable/restore of the request threshold without a finally')
+V('reord-module-reorder-save-restore-finally', 'C17', 'benign',
+  [(B, """    if order is None:
+        _apply_sifting(bdd)
+    else:
+        _sort_to_order(bdd, order)""", """    old = bdd._last_len
+    bdd._last_len = None
+    try:
+        if order is None:
+            _apply_sifting(bdd)
+        else:
+            _sort_to_order(bdd, order)
+    finally:
+        bdd._last_len = old""")],
+  None, 'the same with a finally: nothing to report')
